@@ -461,6 +461,9 @@ def _flip_conf(kind):
         }
     elif kind == "flipC":
         rules["global"] = {"number_of_spaces": ">1", "case": "upper_or_lower"}
+    elif kind == "flipE":
+        rules["global"] = {"case_control_statements_ends_group": "break_on_case_or_end_case", "blank_line_ends_group": "no", "comment_line_ends_group": "no",
+                           "include_type_is_keyword": "yes", "aggregate_parens_ends_group": "yes", "ignore_single_line_aggregates": "yes", "align_to": "current_indent"}
     elif kind == "flipD":
         rules["global"] = {"number_of_spaces": "2+", "indent_size": 4}
     elif kind == "flipB":
@@ -486,7 +489,7 @@ def _flip_conf(kind):
 
 
 def get_conf2(name):
-    if name in ("flipA", "flipB", "flipC", "flipD"):
+    if name in ("flipA", "flipB", "flipC", "flipD", "flipE"):
         if name not in _CONF:
             _CONF[name] = _flip_conf(name)
         return _CONF[name]
@@ -663,7 +666,7 @@ PINNED = {
     "C03": ["fixtures/bit_string_literal__rule_500_test_input.vhd", "fixtures/constant__rule_400_test_input.vhd"],
     "C06": [("fixtures/case__rule_007_test_input.vhd", "flipB"), ("fixtures/process__rule_015_test_input.vhd", "flipB"), ("fixtures/entity__rule_003_test_input.vhd", "flipB")],
     "C07": ["fixtures/port__rule_010_test_input.vhd"],
-    "C10": ["fixtures/variable__rule_011_test_input.vhd"],
+    "C10": ["fixtures/variable__rule_011_test_input.vhd", ("fixtures/process__rule_400_test_input.vhd", "flipE"), ("fixtures/case__rule_001_test_input.vhd", "flipE")],
     "C18": ["fixtures/constant__rule_012_test_input.vhd", "fixtures/when__rule_001_test_input.vhd"],
     "C19": ["fixtures/constant__rule_017_test_input.vhd", "fixtures/when__rule_001_test_input.vhd", ("fixtures/constant__rule_016_test_input.vhd", "flipA"), ("fixtures/signal__rule_006_test_input.vhd", "flipC"), ("fixtures/port__rule_007_test_input.vhd", "flipD")],
 }
@@ -693,9 +696,9 @@ def pick_params(prop, tier, seed):
     for k, f in enumerate(files):
         conf = "default"
         if tier == "thorough":
-            conf = ["default", "jcl", "flipA", "flipB", "flipC", "flipD"][k % 6]
+            conf = ["default", "jcl", "flipA", "flipB", "flipC", "flipD", "flipE"][k % 7]
         elif k % 3 == 2:
-            conf = ["jcl", "flipA", "flipB", "flipC", "flipD"][(k // 3) % 5]
+            conf = ["jcl", "flipA", "flipB", "flipC", "flipD", "flipE"][(k // 3) % 6]
         if isinstance(f, tuple):
             f, conf = f
         cl = code_lines(f)
